@@ -41,6 +41,15 @@ RightSpine(k) ==  \* list nodes chained through right, element on the left; the 
    r |-> [i \in 1..MaxNodes |-> IF i < k THEN i + 1 ELSE IF i = k THEN 2 * k + 1 ELSE 0],
    isl |-> [i \in 1..MaxNodes |-> i <= k]]
 
+NilSpine(k) ==    \* cons style: list nodes chained through right, element on the left, closed by a childless list node ("nil")
+  [l |-> [i \in 1..MaxNodes |-> IF i <= k THEN k + i ELSE 0],
+   r |-> [i \in 1..MaxNodes |-> IF i < k THEN i + 1 ELSE IF i = k THEN 2 * k + 1 ELSE 0],
+   isl |-> [i \in 1..MaxNodes |-> i <= k \/ i = 2 * k + 1]]
+NullSpine(k) ==   \* the same, closed by a NULL right pointer (k >= 1; 2k nodes)
+  [l |-> [i \in 1..MaxNodes |-> IF i <= k THEN k + i ELSE 0],
+   r |-> [i \in 1..MaxNodes |-> IF i < k THEN i + 1 ELSE 0],
+   isl |-> [i \in 1..MaxNodes |-> i <= k]]
+
 Init ==
   /\ mode \in Modes
   /\ \/ /\ mode # "list"
@@ -48,8 +57,9 @@ Init ==
         /\ \E s \in Shapes(1, n) : left = s.l /\ right = s.r
         /\ islist = [i \in 1..MaxNodes |-> FALSE]
      \/ /\ mode = "list"
-        /\ \E k \in 0..((MaxNodes - 1) \div 2) : \E s \in {LeftSpine(k), RightSpine(k)} :
-             n = 2 * k + 1 /\ left = s.l /\ right = s.r /\ islist = s.isl
+        /\ \E k \in 0..((MaxNodes - 1) \div 2) :
+             \/ \E s \in {LeftSpine(k), RightSpine(k), NilSpine(k)} : n = 2 * k + 1 /\ left = s.l /\ right = s.r /\ islist = s.isl
+             \/ k >= 1 /\ n = 2 * k /\ left = NullSpine(k).l /\ right = NullSpine(k).r /\ islist = NullSpine(k).isl
   /\ root = IF n = 0 THEN 0 ELSE 1
   /\ tag = [i \in 1..MaxNodes |-> 0]
   /\ oleft = left /\ oright = right
